@@ -179,7 +179,7 @@ func hasNonFinite(v any) bool {
 }
 
 func runC45(c *core.Ctx) {
-	c.Rule = "JSON-like Go values of depth <=2 (quick) / 3 (thorough) over 23 leaves (nil, bools, +-0, 1.5, MaxFloat64, denormal, int, MaxInt64, MaxUint64, int32, uint8, float32, strings incl. invalid UTF-8, []byte, json.Number, NaN, Inf, an unsupported type) with slices and maps of <=2 elements: NewValue fails iff the documented conversion is undefined (unsupported type, invalid UTF-8), otherwise AsInterface(NewValue(v)) deep-equals the documented conversion (integers and float32 to float64, []byte to base64), NewStruct/AsMap and NewList/AsSlice likewise, and for finite values encoding/json of AsInterface decodes to the same JSON value as protojson of the Value. anypb: for EVERY registered message type x every single-slot message: New / MarshalFrom / UnmarshalTo / UnmarshalNew / MessageIs / MessageName identities, MessageIs false for another type, UnmarshalTo into another type fails"
+	c.Rule = "JSON-like Go values of depth <=2 (quick) / 3 (thorough) over 23 leaves (nil, bools, +-0, 1.5, MaxFloat64, denormal, int, MaxInt64, MaxUint64, int32, uint8, float32, strings incl. invalid UTF-8, []byte, json.Number, NaN, Inf, an unsupported type) with slices and maps of <=2 elements: NewValue fails iff the documented conversion is undefined (unsupported type, invalid UTF-8), otherwise AsInterface(NewValue(v)) deep-equals the documented conversion (integers and float32 to float64, []byte to base64), NewStruct/AsMap and NewList/AsSlice likewise, and for finite values encoding/json of AsInterface decodes to the same JSON value as protojson of the Value. anypb: for EVERY registered message type x every single-slot message: New / MarshalFrom / UnmarshalTo / UnmarshalNew / MessageIs / MessageName identities, MessageIs false for another type, UnmarshalTo into another type fails; for EVERY ordered pair of registered message types MessageIs is name equality and UnmarshalTo refuses the other type; 10 near-miss type URLs per type (prefix/suffix characters without a slash, trailing slash, nested slashes, empty): MessageName is the part after the last slash and MessageIs is equality with it"
 	c.Exhaustive = true
 	var n atomic.Int64
 	var vals []any
@@ -318,6 +318,45 @@ func runC45(c *core.Ctx) {
 			})
 		}
 	})
+	// every ordered pair of registered types and every near-miss URL: MessageIs is name equality
+	// on the part after the last slash, and UnmarshalTo refuses every other type
+	var np atomic.Int64
+	c.Par(len(types), func(i int) {
+		ti := types[i]
+		name := string(ti.Descriptor().FullName())
+		c.Guard(func() string { return "anypb pairs type=" + name }, func() {
+			a := &anypb.Any{TypeUrl: "type.googleapis.com/" + name}
+			for j, tj := range types {
+				np.Add(1)
+				mj := tj.Zero().Interface()
+				if got := a.MessageIs(mj); got != (i == j) {
+					c.Violation(fmt.Sprintf("Any{%q}.MessageIs(%s)=%v", a.TypeUrl, tj.Descriptor().FullName(), got), nil)
+				}
+				if i != j {
+					if err := a.UnmarshalTo(tj.New().Interface()); err == nil {
+						c.Violation(fmt.Sprintf("Any{%q}.UnmarshalTo(%s) succeeds", a.TypeUrl, tj.Descriptor().FullName()), nil)
+					}
+				}
+			}
+			m := ti.Zero().Interface()
+			for _, u := range []struct {
+				url  string
+				want string
+			}{{"x" + name, "x" + name}, {name + "x", name + "x"}, {"a/x" + name, "x" + name}, {"a/x." + name, "x." + name}, {name + "/", ""}, {name + "/b", "b"}, {"a/" + name + "/" + name, name}, {"", ""}, {"/", ""}, {"type.googleapis.com/" + name[1:], name[1:]}} {
+				np.Add(1)
+				x := &anypb.Any{TypeUrl: u.url}
+				if got := string(x.MessageName()); got != u.want {
+					c.Violation(fmt.Sprintf("Any{%q}.MessageName()=%q want %q", u.url, got, u.want), nil)
+				}
+				if got := x.MessageIs(m); got != (u.want == name) {
+					c.Violation(fmt.Sprintf("Any{%q}.MessageIs(%s)=%v", u.url, name, got), nil)
+				}
+			}
+		})
+	})
+	c.Eval(np.Load())
+	c.DistinctN(np.Load())
+	c.Bounds["any_type_pairs_and_urls"] = np.Load()
 	var nilAny *anypb.Any
 	if nilAny.MessageName() != "" || nilAny.MessageIs(other.New().Interface()) {
 		c.Violation("nil Any: MessageName/MessageIs", nil)
